@@ -248,7 +248,7 @@ def run(tier, seed):
         if i % 500 == 3:
             chk.sample({'case': {'type': m['type'], 'le': c['le'], 'fields': repr(m['fields'])[:200], 'raw': list(raw)[:40]}})
     # ---- code -> spec: random messages in both directions
-    nrand = 1500 if thorough else 300
+    nrand = 10000 if thorough else 300
     parse_tr = []
     for i in range(nrand):
         m = rand_msg(rng)
